@@ -305,7 +305,7 @@ func checkCmd(opts *RunOpts, args []string) int {
 	witnessCache := map[string]bool{}
 	var unsatCore []string
 	cexCache := map[string]*Cex{}
-	var cov_order, cov_rel, cov_neg, cov_q, cov_d map[string]any
+	var cov_order, cov_rel, cov_neg, cov_q, cov_d, cov_f map[string]any
 
 	for _, res := range run.Results {
 		if res.Trusted {
@@ -545,6 +545,15 @@ func checkCmd(opts *RunOpts, args []string) int {
 		}
 		cov_neg = cv
 	}
+	if run.FRan {
+		_, vl, cv := boundedListVerdict(opts, prop, known, "bounded.faults.handler_positions", "none.txt", run.FFailing, run.FTotal,
+			"machine with B active, Set{A} (BExit, AEnter, BEnd, AState), two handler bindings, a panic (error / string) or a stall past HandlerTimeout injected at every (handler, binding)",
+			"", "break fault containment (call returns Canceled, Exception carries the panic message / the timeout is reported, negotiation faults change nothing, final faults roll back the unfinished handlers, tick parity holds, a probe mutation executes afterwards)", nil)
+		if vl != "" {
+			violations = append(violations, vl)
+		}
+		cov_f = cv
+	}
 	if run.DRan {
 		_, vl, cv := boundedListVerdict(opts, prop, known, "bounded.dispose.scenarios", "none.txt", run.DFailing, run.DTotal,
 			"disposal landing {idle, inside a final handler, inside a negotiation handler, twice, DisposeForce, parent context canceled} x Start active or not x with or without the Disposing/Disposed mixin handlers",
@@ -624,6 +633,9 @@ func checkCmd(opts *RunOpts, args []string) int {
 	}
 	if cov_rel != nil {
 		cov["bounded_relations_standin"] = cov_rel
+	}
+	if cov_f != nil {
+		cov["bounded_fault_standin"] = cov_f
 	}
 	if cov_d != nil {
 		cov["bounded_dispose_standin"] = cov_d
